@@ -1,5 +1,5 @@
 (* Properties/C02.v — annotations reach exactly the ancestors; records stay direct (C02) *)
-From HpoV Require Import Gen.Consts Model.Base Model.Group Model.Onto Model.Dump Run.World Run.C02 Proofs.C02P Proofs.ClosureP Proofs.LinkP.
+From HpoV Require Import Gen.Consts Model.Base Model.Group Model.Onto Model.Dump Run.World Run.C02 Proofs.C02P Proofs.ClosureP Proofs.LinkP Proofs.RecordsP.
 
 (* For every observation that passes the executable statement (evaluated by the check on the real
    crate's observation of every generated ontology, for each of the three kinds separately): *)
@@ -48,9 +48,24 @@ Theorem C02_model_kinds_framed : forall k a a' t', frame k a a' -> In t' (ar_ter
   exists t, In t (ar_terms a) /\ t' = set_annots k (t_annots k t') t.
 Proof. exact frame_In_r. Qed.
 
+(* records stay direct: one successful annotate_* call adds exactly that term to exactly that record
+   (never an inherited term), creates the record if needed, and leaves the records of the other
+   two kinds untouched; on the term side it is one propagation (C02_model_link) *)
+Theorem C02_model_records_stay_direct : forall k id name tid o o', b_annotate k id name tid o = Ok o' ->
+  (forall g x, In x (direct k o' g) <-> In x (direct k o g) \/ (g = id /\ x = tid)) /\
+  (exists r, an_find id (o_records k o') = Some r) /\
+  (forall k', k' <> k -> o_records k' o' = o_records k' o).
+Proof. exact annotate_records. Qed.
+
+Theorem C02_model_annotate_is_one_propagation : forall k id name tid o o', b_annotate k id name tid o = Ok o' ->
+  link (link_fuel (o_arena o)) k (o_arena o) tid id = Ok (o_arena o').
+Proof. exact annotate_is_link. Qed.
+
 Print Assumptions C02_inherited_exact.
 Print Assumptions C02_records_wellformed.
 Print Assumptions C02_linked_ids_resolve.
 Print Assumptions C02_model_link.
 Print Assumptions C02_model_inherited_exact.
 Print Assumptions C02_model_kinds_framed.
+Print Assumptions C02_model_records_stay_direct.
+Print Assumptions C02_model_annotate_is_one_propagation.
